@@ -174,15 +174,15 @@ def sync (s : State) (t : Nat) (fn act res : String) : Except String State := do
   | .eLock _, "Lock(mutex)" => tau s t act
   | .dLock, "Lock(mutex)" => tau s t act
   | .eSigUnlock _ _, "Unlock(l)" | .dSigUnlock _, "Unlock(l)" => tau s t act
-  | .eSelect _ _, "Select:Recv(signal)" => tau s t act
-  | .dSelect _, "Select:Recv(signal)" => tau s t act
+  | .eSelect _ _, "Select:Recv($)" => tau s t act
+  | .dSelect _, "Select:Recv($)" => tau s t act
   | .eSelect _ _, "Select:Recv(ctx.Done())" | .dSelect _, "Select:Recv(ctx.Done())" => do
       let s ← ended s t
       match step s (.ctxArm t) with
       | some s' => pure s'
       | none => .error "model: the ctx.Done() arm is not enabled"
   | .bcUnlock _ _ _, "Unlock(l)" => tau s t act
-  | .bcClose _ _ _, "Close(old)" => tau s t act
+  | .bcClose _ _ _, "Close($)" => tau s t act
   | .lRLock, "RLock(mutex)" => tau s t act
   | .aRLock, "RLock(mutex)" => tau s t act
   | .runlock (.n _), "RUnlock(mutex)" => do checkSnap s res; tau s t act
